@@ -11,6 +11,7 @@ import CCT.Ref.Crypto
 import Std.Data.HashMap
 import CCT.Model.IntLimit
 import CCT.Model.Files
+import CCT.Model.Diagnostics
 /-!
 # Driver — line protocol between the Python harness and the executable model
 
@@ -306,6 +307,23 @@ def handle (memo : Memo) (line : String) : Memo × String :=
             | _ => (memo, "X bad-args")
           | _ => (memo, "X bad-args")
         | _ => (memo, "X bad-args")
+      | _ => (memo, "X bad-args")
+    | "vsignableio" =>
+      -- verify_signable under a standard output that takes text (ok) / fails on every write (failing) / is absent
+      match args with
+      | stTok :: rest =>
+        match (match stTok with | "ok" => some Stdout.takesText | "failing" => some Stdout.failing | "absent" => some Stdout.absent | _ => none), parseVal rest with
+        | some st, some (.j e, r1) => match parseVal r1 with
+          | some (.j k, r2) => match parseVal r2 with
+            | some (.j t, r3) => match parseVal r3 with
+              | some (g, []) =>
+                let gpg := gpgOf g
+                let memo' := warm memo e gpg
+                (memo', showRes (withIntLimit (payloadOf e) (verifySignableUnder (memoCrypto memo') st e k t gpg)))
+              | _ => (memo, "X bad-args")
+            | _ => (memo, "X other-kinds")
+          | _ => (memo, "X other-kinds")
+        | _, _ => (memo, "X other-kinds")
       | _ => (memo, "X bad-args")
     | "vclass" =>
       -- per-entry class of every entry of an envelope's signature map, in map order (Model/Auth.lean: entryClass)
